@@ -1259,7 +1259,7 @@ func main() {
 	}
 	r := run.Rand
 	exhaustive(run.Scale(4, 7))
-	n := run.Scale(2400, 60000)
+	n := run.Scale(8000, 120000)
 	for i := 0; i < n; i++ {
 		switch k := r.Intn(20); {
 		case k < 3:
@@ -1278,13 +1278,13 @@ func main() {
 			runCase(genHistory(r, "file"))
 		}
 	}
-	for i := 0; i < run.Scale(6, 60); i++ {
+	for i := 0; i < run.Scale(10, 100); i++ {
 		runCase(genBig(r, common.Pick(r, []string{"oci", "file", "mem"})))
 	}
-	for i := 0; i < run.Scale(150, 4000); i++ {
+	for i := 0; i < run.Scale(400, 8000); i++ {
 		runCase(genConcurrent(r, common.Pick(r, []string{"oci", "oci", "mem", "lim1000000"})))
 	}
-	for i := 0; i < run.Scale(150, 3000); i++ {
+	for i := 0; i < run.Scale(300, 6000); i++ {
 		p := genPush(r, genData(r))
 		kind := "mem"
 		if r.Chance(1, 3) {
